@@ -2,16 +2,16 @@
 tables they use, and the literal constants of capellambse/model/_pods.py and of the attribute
 escaper in capellambse/loader/exs.py.
 
-Reflective part (subprocess importing capellambse from the tree under check): for every class in
-XTYPE_HANDLERS, every attribute that is a BasePOD -> (class, attribute, kind, XML attribute,
-writable, enum index, default).  Unknown POD kinds get kind code 99 (the Coq theorem
-`all_rows_known` then fails).  Literal part (ast): BoolPOD's two texts, FloatPOD's infinity marker,
-DatetimePOD.re_set/re_get pattern sources and isoformat arguments, exs.ESCAPE_CHARS.
-Fails closed (raises) when an expected literal is not found.
+Everything is obtained by reflection in a subprocess that imports capellambse from the tree under
+check: for every class in XTYPE_HANDLERS (and every other ModelElement subclass), every attribute that
+is a BasePOD -> (class, attribute, kind, XML attribute, writable, enum index, default).  Unknown POD
+kinds get kind code 99 (the Coq theorem `all_rows_known` then fails).  Literals: the two texts
+BoolPOD writes and the one it reads as True, the text FloatPOD writes for +inf and whether it reads
+it back, the DatetimePOD.re_set/re_get pattern sources, the character class of exs.P_ESCAPE_TEXT
+(parsed by a small [..]-class parser).  Fails closed (raises) when something has an unexpected shape.
 """
 from __future__ import annotations
 
-import ast
 import json
 import os
 import pathlib
@@ -96,7 +96,25 @@ for n in sorted(dir(mt)):
     e = getattr(mt, n)
     if isinstance(e, type) and issubclass(e, enum.Enum) and e.__module__ == mt.__name__:
         enum_idx(e)
-json.dump({"rows": rows, "enums": enums, "nclasses": len(classes)}, sys.stdout)
+# literal texts, observed on the live code (robust against harmless rewrites of the method bodies)
+from capellambse.loader import exs
+lit = {}
+b = _pods.BoolPOD("x")
+lit["bool_true"], lit["bool_false"] = b._to_xml(True), b._to_xml(False)
+cands = [lit["bool_true"], lit["bool_false"], "true", "false", "True", "TRUE", "1", "0", "yes", ""]
+truthy = [c for c in dict.fromkeys(cands) if b._from_xml(c) is True]
+if len(truthy) != 1:
+    raise SystemExit("BoolPOD._from_xml: expected exactly one text read as True among %r, got %r" % (cands, truthy))
+lit["bool_read_true"] = truthy[0]
+f = _pods.FloatPOD("x")
+lit["float_inf_marker"] = f._to_xml(math.inf)
+try:
+    lit["float_inf_read"] = [lit["float_inf_marker"]] if f._from_xml(lit["float_inf_marker"]) == math.inf else []
+except ValueError:
+    lit["float_inf_read"] = []
+lit["re_set"], lit["re_get"] = _pods.DatetimePOD.re_set.pattern, _pods.DatetimePOD.re_get.pattern
+lit["esc_pattern"] = exs.P_ESCAPE_TEXT.pattern
+json.dump({"rows": rows, "enums": enums, "nclasses": len(classes), "lit": lit}, sys.stdout)
 """
 
 
@@ -112,83 +130,13 @@ def S(s: str) -> str:
     return "[" + ";".join(str(ord(c)) for c in s) + "]"
 
 
-def _class(tree: ast.Module, name: str) -> ast.ClassDef:
-    for n in tree.body:
-        if isinstance(n, ast.ClassDef) and n.name == name:
-            return n
-    raise RuntimeError(f"class {name} not found")
-
-
-def _method(cls: ast.ClassDef, name: str) -> ast.FunctionDef:
-    for n in cls.body:
-        if isinstance(n, ast.FunctionDef) and n.name == name:
-            return n
-    raise RuntimeError(f"{cls.name}.{name} not found")
-
-
-def literals(repo: pathlib.Path) -> dict:
-    src = (repo / "capellambse" / "model" / "_pods.py").read_text()
-    tree = ast.parse(src)
-    out: dict = {}
-    # BoolPOD
-    b = _class(tree, "BoolPOD")
-    tup = [n for n in ast.walk(_method(b, "_to_xml")) if isinstance(n, ast.Tuple)
-           and all(isinstance(e, ast.Constant) and isinstance(e.value, str) for e in n.elts)]
-    if len(tup) != 1 or len(tup[0].elts) != 2:
-        raise RuntimeError("BoolPOD._to_xml: expected one 2-tuple of string literals")
-    out["bool_false"], out["bool_true"] = (e.value for e in tup[0].elts)
-    cmp = [n for n in ast.walk(_method(b, "_from_xml")) if isinstance(n, ast.Compare)]
-    if (len(cmp) != 1 or not isinstance(cmp[0].ops[0], ast.Eq) or not isinstance(cmp[0].comparators[0], ast.Constant)):
-        raise RuntimeError("BoolPOD._from_xml: expected `value == <literal>`")
-    out["bool_read_true"] = cmp[0].comparators[0].value
-    # FloatPOD: string literals returned by _to_xml / compared in _from_xml
-    f = _class(tree, "FloatPOD")
-    rets = [n.value.value for n in ast.walk(_method(f, "_to_xml")) if isinstance(n, ast.Return)
-            and isinstance(n.value, ast.Constant) and isinstance(n.value.value, str)]
-    if len(rets) != 1:
-        raise RuntimeError("FloatPOD._to_xml: expected exactly one literal string return (the infinity marker)")
-    out["float_inf_marker"] = rets[0]
-    rd = [n.comparators[0].value for n in ast.walk(_method(f, "_from_xml")) if isinstance(n, ast.Compare)
-          and isinstance(n.ops[0], ast.Eq) and isinstance(n.comparators[0], ast.Constant) and isinstance(n.comparators[0].value, str)]
-    out["float_inf_read"] = rd   # list of literals that _from_xml recognises specially ([] on the unfixed tree)
-    # DatetimePOD
-    d = _class(tree, "DatetimePOD")
-    for n in d.body:
-        if isinstance(n, ast.Assign) and isinstance(n.targets[0], ast.Name) and n.targets[0].id in ("re_set", "re_get"):
-            call = n.value
-            if not (isinstance(call, ast.Call) and len(call.args) == 1 and isinstance(call.args[0], ast.Constant)):
-                raise RuntimeError("DatetimePOD.re_*: expected re.compile(<literal>)")
-            out[n.targets[0].id] = call.args[0].value
-    if "re_set" not in out or "re_get" not in out:
-        raise RuntimeError("DatetimePOD.re_set/re_get not found")
-    iso = [n for n in ast.walk(_method(d, "_to_xml")) if isinstance(n, ast.Call) and isinstance(n.func, ast.Attribute)
-           and n.func.attr == "isoformat"]
-    if len(iso) != 1 or not all(isinstance(a, ast.Constant) for a in iso[0].args):
-        raise RuntimeError("DatetimePOD._to_xml: expected one isoformat(<literals>) call")
-    out["iso_args"] = [a.value for a in iso[0].args]
-    subs = [n for n in ast.walk(_method(d, "_to_xml")) if isinstance(n, ast.Call) and isinstance(n.func, ast.Attribute) and n.func.attr == "sub"]
-    subg = [n for n in ast.walk(_method(d, "_from_xml")) if isinstance(n, ast.Call) and isinstance(n.func, ast.Attribute) and n.func.attr == "sub"]
-    if len(subs) != 1 or len(subg) != 1 or not isinstance(subs[0].args[0], ast.Constant) or not isinstance(subg[0].args[0], ast.Constant):
-        raise RuntimeError("DatetimePOD: expected one re.sub(<literal>, ..) in _to_xml and in _from_xml")
-    out["re_set_repl"], out["re_get_repl"] = subs[0].args[0].value, subg[0].args[0].value
-    # exs escape class
-    xsrc = (repo / "capellambse" / "loader" / "exs.py").read_text()
-    xt = ast.parse(xsrc)
-    consts = {}
-    for n in xt.body:
-        if isinstance(n, ast.Assign) and isinstance(n.targets[0], ast.Name):
-            consts[n.targets[0].id] = n.value
-    ec = consts.get("ESCAPE_CHARS")
-    pt = consts.get("P_ESCAPE_TEXT")
-    if not (isinstance(ec, ast.Constant) and isinstance(ec.value, str)):
-        raise RuntimeError("exs.ESCAPE_CHARS literal not found")
-    try:
-        fmt_arg = pt.args[0].args[0].value      # re.compile(ESCAPE_CHARS.format('"&<'))
-        assert pt.args[0].func.attr == "format" and pt.args[0].func.value.id == "ESCAPE_CHARS"
-    except Exception as e:  # noqa: BLE001
-        raise RuntimeError("exs.P_ESCAPE_TEXT: expected re.compile(ESCAPE_CHARS.format(<literal>))") from e
-    out["esc_class"] = charclass(ec.value.format(fmt_arg))
-    return out
+def literals(data: dict) -> dict:
+    lit = dict(data["lit"])
+    for k in ("bool_true", "bool_false", "bool_read_true", "float_inf_marker", "re_set", "re_get", "esc_pattern"):
+        if not isinstance(lit.get(k), str):
+            raise RuntimeError(f"literal {k} is not a string: {lit.get(k)!r}")
+    lit["esc_class"] = charclass(lit["esc_pattern"])
+    return lit
 
 
 def charclass(pat: str) -> list[int]:
@@ -225,7 +173,7 @@ def charclass(pat: str) -> list[int]:
 
 def generate(repo: pathlib.Path) -> dict[str, str]:
     data = reflect(repo)
-    lit = literals(repo)
+    lit = literals(data)
     rows, enums = data["rows"], data["enums"]
     if not rows or data["nclasses"] < 10:
         raise RuntimeError("class registry is (nearly) empty")
@@ -276,9 +224,6 @@ def generate(repo: pathlib.Path) -> dict[str, str]:
     o.append("Definition src_float_inf_read : list (list N) := [" + "; ".join(S(x) for x in lit["float_inf_read"]) + "].")
     o.append(f"Definition src_re_set : list N := {S(lit['re_set'])}.")
     o.append(f"Definition src_re_get : list N := {S(lit['re_get'])}.")
-    o.append(f"Definition src_re_set_repl : list N := {S(lit['re_set_repl'])}.")
-    o.append(f"Definition src_re_get_repl : list N := {S(lit['re_get_repl'])}.")
-    o.append("Definition src_iso_args : list (list N) := [" + "; ".join(S(x) for x in lit["iso_args"]) + "].")
     o.append("Definition src_esc_class : list N := [" + ";".join(str(c) for c in lit["esc_class"]) + "].")
     o.append("")
     return {"PodsTab.v": "\n".join(o)}
